@@ -26,7 +26,9 @@ class HistoryProp(Prop):
     def header(self, rng, tier, index):
         hz = self.draw_hazards(rng, tier)
         n_sessions = rng.choice([1, 2, 2, 3])
-        nfam = 1 if tier == "quick" and rng.random() < 0.6 else rng.choice([1, 2, 2, 3] if tier != "quick" else [2])
+        # one scenario family per history: composed families multiply the known finding classes
+        # (DESIGN §4 C02 "claimed space"); the composition knob stays for surveys
+        nfam = int(__import__("os").environ.get("GAISIM_NFAM", "1"))
         fams = [rng.choice(self.families) for _ in range(nfam)]
         import os
         if os.environ.get("GAISIM_FAMILIES"):
